@@ -59,6 +59,65 @@ def rhs_param(fn):
     return "p:%s" % fn["params"][0]["n"] if fn.get("params") else None
 
 
+def copy_and_swap(facts, fn, q, rp, rec):
+    """operator= of class q:  `q tmp(rhs); swap(tmp);` where the swap helper exchanges every data member of the class."""
+    tmp = None
+    for n in ir.walk(fn["body"]):
+        if n.get("k") == "Decl":
+            for v in n.get("vars", []):
+                t = (v.get("t") or "").replace("const ", "")
+                init = v.get("init")
+                if t == q and isinstance(init, dict) and path(init) == (rp,):
+                    tmp = ("l:%s#%s" % (v["n"], v["id"]),)
+    if tmp is None:
+        return False
+    fields = set(fl["n"] for fl in rec.get("fields", []))
+
+    def swaps_in(body, a_name, b_name):
+        swapped = set()
+        for x in ir.calls_in(body):
+            if callee_name(x) != "swap":
+                continue
+            if x.get("k") == "MCall" and len(x.get("args", [])) == 1:
+                a, b = path(x.get("recv")), path(x["args"][0])
+            elif len(x.get("args", [])) == 2:
+                a, b = path(x["args"][0]), path(x["args"][1])
+            else:
+                continue
+            if a and b and len(a) == 2 and len(b) == 2 and a[1] == b[1] and {a[0], b[0]} == {a_name, b_name}:
+                swapped.add(a[1])
+        return swapped
+    # the swap helper may have been expanded in place
+    if fields and fields <= swaps_in(fn["body"], "this", tmp[0]):
+        return True
+    for c in ir.calls_in(fn["body"]):
+        cal = c.get("callee") or {}
+        if c.get("k") == "MCall" and cal.get("cls") == q and len(c.get("args", [])) == 1 and path(c["args"][0]) == tmp and \
+                path(c.get("recv")) in (("this",), None):
+            helpers = [h for h in facts.fns(cal.get("qn")) if h.get("cls") == q and h["sig"] == cal.get("sig")]
+            if len(helpers) != 1 or helpers[0].get("body") is None:
+                continue
+            h = helpers[0]
+            other = "p:%s" % h["params"][0]["n"]
+            swapped = set()
+            for x in ir.calls_in(h["body"]):
+                nm = callee_name(x)
+                if nm != "swap":
+                    continue
+                if x.get("k") == "MCall" and len(x.get("args", [])) == 1:
+                    a, b = path(x.get("recv")), path(x["args"][0])
+                elif len(x.get("args", [])) == 2:
+                    a, b = path(x["args"][0]), path(x["args"][1])
+                else:
+                    continue
+                if a and b and len(a) == 2 and len(b) == 2 and a[1] == b[1] and {a[0], b[0]} == {"this", other}:
+                    swapped.add(a[1])
+            fields = set(fl["n"] for fl in rec.get("fields", []))
+            if fields and fields <= swapped:
+                return True
+    return False
+
+
 def check(run):
     facts = run.facts
     borrow = borrowing_records(facts)
@@ -133,6 +192,13 @@ def check(run):
                     if n.get("k") == "MCall" and (n.get("callee") or {}).get("cls") == q and callee_name(n) not in ("operator=",):
                         rebuilds = True   # helper such as rebuild_indexes()
                 ok = (not copies) and rebuilds
+                if op == "copyAssign" and copy_and_swap(facts, fn, q, rp, r):
+                    # copy-and-swap: the copy constructor (its own obligation above) builds a table whose index refers to its own
+                    # items; exchanging *every* member moves items and index together (container swap keeps element references
+                    # valid), and the previous content leaves with the temporary
+                    run.ob("R19.1", "%s:%s" % (key, op), True, fn, fn["line"],
+                           "copy assignment builds a copy aside and swaps every member with it")
+                    continue
                 if ok and op == "copyAssign" and not delegates:
                     # the destination may already hold entries: they must be removed from the borrowing member, in the
                     # assignment itself or in a helper of the class it calls
@@ -201,9 +267,18 @@ def check(run):
     run.ob("R19.2", "CdnsBlockRead::operator=:base", len(base_call) == 1, rasg, rasg["line"],
            "delegates the CdnsBlock part to CdnsBlock::operator=" if len(base_call) == 1 else "CdnsBlock::operator= is not called exactly once")
     own = {}
-    for lp, rhs, node in consumption.assignment_targets(ir.stmts(rasg["body"])):
-        if lp and lp[0] == "this" and len(lp) == 2:
-            own[lp[1]] = rhs
+    bodies = [rasg["body"]]
+    # parameterless members of the class called on this object (`rewind()`) do part of the assignment's work
+    for c in ir.calls_in(rasg["body"]):
+        cal = c.get("callee") or {}
+        if c.get("k") == "MCall" and cal.get("cls") == "CDNS::CdnsBlockRead" and not c.get("args") and path(c.get("recv")) == ("this",):
+            for h in facts.fns(cal.get("qn")):
+                if h.get("cls") == "CDNS::CdnsBlockRead" and not h.get("params") and h.get("body") is not None:
+                    bodies.append(h["body"])
+    for b_ in bodies:
+        for lp, rhs, node in consumption.assignment_targets(ir.stmts(b_)):
+            if lp and lp[0] == "this" and len(lp) == 2:
+                own[lp[1]] = rhs
     for f in rd["fields"]:
         rhs = own.get(f["n"])
         if rhs is None:
